@@ -97,9 +97,9 @@ ColumnsDetermined(t, br, r) ==
 (* ESC[33m and ESC[0m, segments joined by line breaks.                     *)
 (***************************************************************************)
 ESC == 27
-\* an SGR sequence ESC [ digits m starting at i: returns its length, 0 if none; reset = all digits are '0'
+\* an SGR sequence ESC [ digits-and-semicolons m starting at i: returns its length, 0 if none; reset = all digits are '0'
 RECURSIVE DigitsEnd(_, _)
-DigitsEnd(b, i) == IF i <= Len(b) /\ b[i] >= 48 /\ b[i] <= 57 THEN DigitsEnd(b, i + 1) ELSE i
+DigitsEnd(b, i) == IF i <= Len(b) /\ ((b[i] >= 48 /\ b[i] <= 57) \/ b[i] = 59) THEN DigitsEnd(b, i + 1) ELSE i
 SgrLen(b, i) == IF i + 2 <= Len(b) /\ b[i] = ESC /\ b[i + 1] = 91
                 THEN LET e == DigitsEnd(b, i + 2) IN IF e > i + 2 /\ e <= Len(b) /\ b[e] = 109 THEN e - i + 1 ELSE 0
                 ELSE 0
